@@ -108,6 +108,12 @@ CHECKS = {
    text="216 one-type-parameter signatures (6 constraints x 1-2 parameter shapes over T, []T, *T, map[string]T, map[T]int, func(T) T, func() T, Box[T], chan T, [2]T, ...T; all 11x11 pairs thorough) and 21 hand-written 2-3 type-parameter signatures (core-type, pointer-method, un-inferable, reordered); x every explicit prefix of length 0..n+1 over a type alphabet x every argument list of the arity over 25 atoms (untyped constants, nil, 17 typed variables, two generic function values; spreads for variadics) x 4 modes (call, assign to func variable, reference, XGox_ leading type arguments) + generic type instantiation through Index and Package.Instantiate: 5.5M uses. Accept/reject must equal go/types; the type arguments recorded by go/types for the emitted callee must equal those of the reference text; builder-reported result type / instantiated signature must equal go/types'.",
    note="Trusted: go/types 1.23.5 inference as reference. Rejected uses are re-built in a second package without them before printing (a rejected declaration may leave a half-built statement).",
    design="§4 C07"),
+ "C11": dict(
+   category="exploration",
+   technique="bounded exhaustive enumeration of per-extension tables on the real CodeBuilder; oracle = go/types verdict on a reference lowering written as plain Go + equality of typed canonical forms (alpha-renamed) of emitted and reference function",
+   text="Eight tables, 10.8k rows quick: every builtin-type method (transcribed table) x 25 receivers x documented arity, arity-1, arity+1 x exact/alias/auto-property; member chains of depth 1-2 (3 thorough) on 8 receivers in 17 statement positions incl. every header kind; T(b) for 20 types x 6 boolean operands and T() for 22 types in 3 typing contexts; 138 optional-parameter signatures (positional^i optional^j [variadic], own package and imported) x 0..i+j+2 arguments + documented order rejections; method alias / auto-property on value, pointer, interface and non-addressable receivers, own-package exact-vs-alias precedence; 13 enumerator types (Next-style 1/2 values, XGo_Enum/Gop_Enum, value/pointer, func(yield) with 0..2 values, malformed) x 11 variable lists x 5 bodies; inline closures for 8 signatures x side-effect-free / side-effecting operands x plain / early return x 0..2 variadic arguments; big literals +-(2^k+-1), p/q and folded + - * / on pairs (XGo configuration, declarations taken from internal/builtin/big.go of the tree). The builder accepts iff go/types accepts the reference lowering; accepted rows must print, type-check and equal the reference (or a listed equivalent placement) in canonical form.",
+   note="Trusted: the reference lowerings (harness transcription of the documented desugarings), go/types 1.23.5. Stubs stand in for strings/strconv/math/big signatures. Tuple casts and XGo_Rcast are not covered.",
+   design="§4 C11"),
 }
 
 NOT_APPLICABLE = {
